@@ -9,12 +9,18 @@ complex binary64 with a Gauss–Jordan inverse.  `lwrLoop_spec` shows the model'
 (coefficient lists `a`, `b`, `sigf`, `sigb`) is the state of the abstract recursion `LWR.lwr`
 proved correct in `Lemmas/BlockLevinson.lean` (`LWR.step_inv`, `LWR.lwr_solves`).
 
-Not proved (see notes/C11.md): positive-definiteness of the returned covariance (per-run
-`eigvalsh` certificate); that conjugation by a permutation matrix satisfies the hypotheses of
-`lwr_equivariant`; that the Gauss–Jordan `Mat.inv` is a left inverse; Float ≈ ℂ.
+Positive-definiteness of the returned covariance and the existence of every inverse the code takes
+are PROVED for all orders from positive-definiteness of the block-Toeplitz covariance matrix
+(`lwr_sigma_posDef`, `invOK_of_toeplitzPD`, `toeplitzPD_of_full`).
+The driver's Gauss–Jordan `inv` is proved to return a two-sided inverse whenever it returns
+(`gjInv_contract`).  Not proved: that lists of rows of a fixed size form the star ring the theorems are
+stated over (dimension discipline of `SqMat n`); Float ≈ ℂ.
 -/
 import Nitime.Model.C11
 import Nitime.Lemmas.BlockLevinson
+import Nitime.Lemmas.LWRPosDef
+import Nitime.Lemmas.GaussJordan
+import Mathlib.LinearAlgebra.Matrix.Reindex
 import Nitime.Lemmas.ARInst
 import Nitime.Props.C10
 import Mathlib.LinearAlgebra.Matrix.NonsingularInverse
@@ -548,6 +554,210 @@ theorem lwr_sigma_psd_order1 (r : ℕ → Matrix (Fin n) (Fin n) ℂ) (h0 : (r 0
   exact (Matrix.PosDef.fromBlocks₂₂ (r 0) (r 1) h0).mp hT
 
 end pd
+
+/-! ### positive definiteness, every order -/
+section pdall
+open ComplexOrder Matrix
+variable {n : ℕ}
+
+/-- the two block-Toeplitz quadratic forms of order `m` (`T_{ik} = R(k−i)` and its reversal) -/
+def QF (R : ℤ → Matrix (Fin n) (Fin n) ℂ) (m : ℕ) (v : ℕ → Fin n → ℂ) : ℂ :=
+  ∑ k ∈ range (m + 1), ∑ i ∈ range (m + 1), star (v i) ⬝ᵥ (R ((k : ℤ) - i) *ᵥ v k)
+def QB (R : ℤ → Matrix (Fin n) (Fin n) ℂ) (m : ℕ) (v : ℕ → Fin n → ℂ) : ℂ :=
+  ∑ k ∈ range (m + 1), ∑ i ∈ range (m + 1), star (v i) ⬝ᵥ (R ((i : ℤ) - k) *ᵥ v k)
+
+lemma term_expand (A B C : Matrix (Fin n) (Fin n) ℂ) (x : Fin n → ℂ) :
+    star x ⬝ᵥ ((A * B * Cᴴ) *ᵥ x) = star (Aᴴ *ᵥ x) ⬝ᵥ (B *ᵥ (Cᴴ *ᵥ x)) := by
+  rw [star_mulVec, conjTranspose_conjTranspose, ← mulVec_mulVec, ← mulVec_mulVec, dotProduct_mulVec,
+    dotProduct_mulVec, dotProduct_mulVec]
+
+lemma quad_expand (A : ℕ → Matrix (Fin n) (Fin n) ℂ) (T : ℕ → ℕ → Matrix (Fin n) (Fin n) ℂ) (m : ℕ)
+    (x : Fin n → ℂ) :
+    star x ⬝ᵥ ((∑ k ∈ range (m + 1), ∑ i ∈ range (m + 1), A i * T k i * star (A k)) *ᵥ x)
+      = ∑ k ∈ range (m + 1), ∑ i ∈ range (m + 1),
+          star ((A i)ᴴ *ᵥ x) ⬝ᵥ (T k i *ᵥ ((A k)ᴴ *ᵥ x)) := by
+  rw [Matrix.sum_mulVec, dotProduct_sum]
+  refine sum_congr rfl fun k _ => ?_
+  rw [Matrix.sum_mulVec, dotProduct_sum]
+  refine sum_congr rfl fun i _ => ?_
+  rw [Matrix.star_eq_conjTranspose, term_expand]
+
+/-- positive definiteness of the block-Toeplitz covariance of orders `≤ P`, in the form used:
+both quadratic forms are positive on every block vector whose leading block is non-zero
+(implied by `T_m ≻ 0` for the full block-Toeplitz matrix of order `P`) -/
+def ToeplitzPD (R : ℤ → Matrix (Fin n) (Fin n) ℂ) (P : ℕ) : Prop :=
+  ∀ m, m ≤ P → ∀ v : ℕ → Fin n → ℂ, v 0 ≠ 0 → 0 < QF R m v ∧ 0 < QB R m v
+
+/-- positive definiteness of the full order-`P` block-Toeplitz covariance matrix
+`Γ_{ik} = R(i − k)`, `0 ≤ i, k ≤ P`, as a quadratic form -/
+def FullToeplitzPD (R : ℤ → Matrix (Fin n) (Fin n) ℂ) (P : ℕ) : Prop :=
+  ∀ v : ℕ → Fin n → ℂ, (∃ i, i ≤ P ∧ v i ≠ 0) → 0 < QB R P v
+
+lemma QB_pad (R : ℤ → Matrix (Fin n) (Fin n) ℂ) {m P : ℕ} (hm : m ≤ P) (v : ℕ → Fin n → ℂ) :
+    QB R P (fun i => if i ≤ m then v i else 0) = QB R m v := by
+  unfold QB
+  have hsub : range (m + 1) ⊆ range (P + 1) := range_subset_range.mpr (by omega)
+  rw [← sum_subset hsub]
+  · refine sum_congr rfl fun k hk => ?_
+    simp only [mem_range] at hk
+    rw [← sum_subset hsub]
+    · refine sum_congr rfl fun i hi => ?_
+      simp only [mem_range] at hi
+      dsimp only
+      rw [if_pos (by omega), if_pos (by omega)]
+    · intro i _ hi
+      simp only [mem_range] at hi
+      dsimp only
+      rw [if_neg (by omega : ¬ i ≤ m)]; simp
+  · intro k _ hk
+    simp only [mem_range] at hk
+    apply sum_eq_zero
+    intro i _
+    dsimp only
+    rw [if_neg (by omega : ¬ k ≤ m)]; simp
+
+lemma QF_reverse (R : ℤ → Matrix (Fin n) (Fin n) ℂ) (m : ℕ) (v : ℕ → Fin n → ℂ) :
+    QF R m v = QB R m (fun i => v (m - i)) := by
+  unfold QF QB
+  rw [← sum_range_reflect]
+  refine sum_congr rfl fun k hk => ?_
+  simp only [mem_range] at hk
+  rw [← sum_range_reflect]
+  refine sum_congr rfl fun i hi => ?_
+  simp only [mem_range] at hi
+  have e1 : m + 1 - 1 - k = m - k := by omega
+  have e2 : m + 1 - 1 - i = m - i := by omega
+  have e3 : m - (m - k) = k := by omega
+  have e4 : m - (m - i) = i := by omega
+  simp only [e1, e2, e3, e4]
+  congr 3
+  push_cast [Nat.cast_sub (by omega : k ≤ m), Nat.cast_sub (by omega : i ≤ m)]
+  ring
+
+/-- positive definiteness of the full block-Toeplitz matrix gives everything the recursion needs -/
+theorem toeplitzPD_of_full {R : ℤ → Matrix (Fin n) (Fin n) ℂ} {P : ℕ} (h : FullToeplitzPD R P) :
+    ToeplitzPD R P := by
+  intro m hm v hv
+  constructor
+  · rw [QF_reverse, ← QB_pad R hm]
+    apply h
+    refine ⟨m, hm, ?_⟩
+    simpa using hv
+  · rw [← QB_pad R hm]
+    apply h
+    refine ⟨0, Nat.zero_le _, ?_⟩
+    simpa using hv
+
+lemma sf_posDef {R : ℤ → Matrix (Fin n) (Fin n) ℂ} (hR : ∀ m, star (R m) = R (-m)) {p : ℕ}
+    {s : LWR.St (Matrix (Fin n) (Fin n) ℂ)} (h : LWR.Inv R p s)
+    (hpd : ∀ v : ℕ → Fin n → ℂ, v 0 ≠ 0 → 0 < QF R p v) : s.sf.PosDef := by
+  refine Matrix.PosDef.of_dotProduct_mulVec_pos ?_ fun x hx => ?_
+  · exact (LWR.sf_selfadjoint hR h)
+  · rw [LWR.sf_quadratic h, quad_expand s.A (fun k i => R ((k : ℤ) - i)) p x]
+    have := hpd (fun i => (s.A i)ᴴ *ᵥ x) (by simpa [h.A0] using hx)
+    exact this
+
+lemma sb_posDef {R : ℤ → Matrix (Fin n) (Fin n) ℂ} (hR : ∀ m, star (R m) = R (-m)) {p : ℕ}
+    {s : LWR.St (Matrix (Fin n) (Fin n) ℂ)} (h : LWR.Inv R p s)
+    (hpd : ∀ v : ℕ → Fin n → ℂ, v 0 ≠ 0 → 0 < QB R p v) : s.sb.PosDef := by
+  refine Matrix.PosDef.of_dotProduct_mulVec_pos ?_ fun x hx => ?_
+  · exact (LWR.sb_selfadjoint hR h)
+  · rw [LWR.sb_quadratic h, quad_expand s.B (fun k j => R ((j : ℤ) - k)) p x]
+    have := hpd (fun i => (s.B i)ᴴ *ᵥ x) (by simpa [h.B0] using hx)
+    exact this
+
+lemma inv_mul_of_posDef {X : Matrix (Fin n) (Fin n) ℂ} (h : X.PosDef) : X⁻¹ * X = 1 :=
+  Matrix.nonsing_inv_mul _ ((Matrix.isUnit_iff_isUnit_det _).mp h.isUnit)
+
+/-- **all orders.** With a positive-definite block-Toeplitz covariance the abstract recursion keeps
+its invariant and both error covariances are positive definite at every order `j ≤ P`
+(so the inverses the code takes exist). -/
+theorem lwr_abstract_posDef {R : ℤ → Matrix (Fin n) (Fin n) ℂ} (hR : ∀ m, star (R m) = R (-m)) (P : ℕ)
+    (hpd : ToeplitzPD R P) :
+    ∀ j, j ≤ P → LWR.Inv R j (LWR.lwr R (fun X => X⁻¹) j) ∧
+      (LWR.lwr R (fun X => X⁻¹) j).sf.PosDef ∧ (LWR.lwr R (fun X => X⁻¹) j).sb.PosDef := by
+  intro j
+  induction j with
+  | zero =>
+    intro _
+    have hI : LWR.Inv R 0 (LWR.lwr R (fun X => X⁻¹) 0) := LWR.init_inv
+    exact ⟨hI, sf_posDef hR hI fun v hv => (hpd 0 (Nat.zero_le _) v hv).1,
+      sb_posDef hR hI fun v hv => (hpd 0 (Nat.zero_le _) v hv).2⟩
+  | succ j ih =>
+    intro hj
+    obtain ⟨hI, hsf, hsb⟩ := ih (by omega)
+    have hI' : LWR.Inv R (j + 1) (LWR.lwr R (fun X => X⁻¹) (j + 1)) :=
+      LWR.step_inv hR hI (inv_mul_of_posDef hsf) (inv_mul_of_posDef hsb)
+    exact ⟨hI', sf_posDef hR hI' fun v hv => (hpd (j + 1) hj v hv).1,
+      sb_posDef hR hI' fun v hv => (hpd (j + 1) hj v hv).2⟩
+
+variable (r : ℕ → Matrix (Fin n) (Fin n) ℂ)
+
+/-- **C11: the hypothesis `InvOK` is discharged by positive definiteness** of the covariance
+sequence: every matrix `lwr_recursion` inverts is positive definite, hence invertible. -/
+theorem invOK_of_toeplitzPD (h0 : star (r 0) = r 0) (P : ℕ) (hpd : ToeplitzPD (Rext r) P) :
+    InvOK (fun X => X⁻¹) r P := by
+  intro j hj
+  obtain ⟨_, hsf, hsb⟩ := lwr_abstract_posDef (Rext_star r h0) P hpd j (by omega)
+  obtain ⟨_, _, _, _, e1, e2⟩ := lwrLoop_spec (fun X : Matrix (Fin n) (Fin n) ℂ => X⁻¹) r j
+  rw [e1, e2]
+  exact ⟨inv_mul_of_posDef hsf, inv_mul_of_posDef hsb⟩
+
+/-- **C11 innovation covariance is Hermitian positive definite, every order.** -/
+theorem lwr_sigma_posDef (h0 : star (r 0) = r 0) (P : ℕ) (hpd : ToeplitzPD (Rext r) P) :
+    (@lwr _ (ringOps fun X => X⁻¹) r P).2.PosDef := by
+  obtain ⟨_, hsf, _⟩ := lwr_abstract_posDef (Rext_star r h0) P hpd P le_rfl
+  have e : (@lwr _ (ringOps fun X => X⁻¹) r P).2 = (LWR.lwr (Rext r) (fun X => X⁻¹) P).sf :=
+    (lwrLoop_spec (fun X : Matrix (Fin n) (Fin n) ℂ => X⁻¹) r P).2.2.2.2.1
+  rw [e]; exact hsf
+
+/-- hence the block Yule–Walker theorem holds with positive definiteness as its only hypothesis -/
+theorem lwr_solves_of_toeplitzPD (h0 : star (r 0) = r 0) (P : ℕ) (hpd : ToeplitzPD (Rext r) P) :
+    (∀ k : ℕ, 1 ≤ k → k ≤ P →
+      ∑ i ∈ range (P + 1), coefA (@lwr _ (ringOps fun X => X⁻¹) r P).1 i * Rext r ((k : ℤ) - i) = 0) ∧
+    (@lwr _ (ringOps fun X => X⁻¹) r P).2
+      = ∑ i ∈ range (P + 1), coefA (@lwr _ (ringOps fun X => X⁻¹) r P).1 i * Rext r (-(i : ℤ)) :=
+  lwr_solves (fun X => X⁻¹) r h0 P (invOK_of_toeplitzPD r h0 P hpd)
+
+end pdall
+
+/-! ### channel permutations -/
+section perm
+open Matrix
+variable {n : ℕ}
+
+/-- relabelling the channels by the permutation `σ`: `(relabel σ X) i j = X (σ⁻¹ i) (σ⁻¹ j)`,
+i.e. `Q·X·Qᵀ` for the permutation matrix `Q` of `σ` -/
+def relabel (σ : Equiv.Perm (Fin n)) : Matrix (Fin n) (Fin n) ℂ →+* Matrix (Fin n) (Fin n) ℂ :=
+  (reindexAlgEquiv ℂ ℂ σ).toAlgHom.toRingHom
+
+lemma relabel_apply (σ : Equiv.Perm (Fin n)) (X : Matrix (Fin n) (Fin n) ℂ) :
+    relabel σ X = reindex σ σ X := rfl
+
+/-- **C11 relabelling the channels permutes the result** (instance of `lwr_equivariant`). -/
+theorem lwr_permutation_equivariant (σ : Equiv.Perm (Fin n)) (r : ℕ → Matrix (Fin n) (Fin n) ℂ) (P : ℕ) :
+    (@lwr _ (ringOps fun X => X⁻¹) (fun k => relabel σ (r k)) P).1
+        = (@lwr _ (ringOps fun X => X⁻¹) r P).1.map (relabel σ) ∧
+    (@lwr _ (ringOps fun X => X⁻¹) (fun k => relabel σ (r k)) P).2
+        = relabel σ (@lwr _ (ringOps fun X => X⁻¹) r P).2 := by
+  have h := lwr_equivariant (relabel σ)
+    (fun x => by rw [relabel_apply, relabel_apply, Matrix.star_eq_conjTranspose, Matrix.star_eq_conjTranspose,
+                      conjTranspose_reindex])
+    (fun X => X⁻¹) (fun X => X⁻¹)
+    (fun x => by rw [relabel_apply, relabel_apply, inv_reindex]) r P
+  exact ⟨h.1, h.2.2.1⟩
+
+end perm
+
+/-! ### the driver's `inv` -/
+
+/-- **C11 contract of the model's `linalg.inv`.** `Mat.inv n a` of the driver is `GMat.inv? n a`
+(zeros when the elimination fails); whenever `GMat.inv?` returns `X` — at `ℂ`, the same generic
+definition — `X·A = I` and `A·X = I`: the `InvOK` contract. -/
+theorem gjInv_contract (n : ℕ) (a x : List (List ℂ)) (h : Nitime.AR.GMat.inv? n a = some x) :
+    Nitime.AR.GMat.toMatrix n x * Nitime.AR.GMat.toMatrix n a = 1 ∧
+    Nitime.AR.GMat.toMatrix n a * Nitime.AR.GMat.toMatrix n x = 1 :=
+  Nitime.AR.GMat.inv?_left_inverse n a x h
 
 /-! ### non-vacuity -/
 
